@@ -58,7 +58,8 @@ def gen_base(rng, tier, index):
     else:
         n = rng.randint(2, 40)
     call = {"ordered": index % 3 != 2, "n": n, "chunk": chunk,
-            "form": rng.choice(["list", "list", "tuple", "gen", "iter", "slow", "deque", "intseq", "range_like"]), "salt": rng.randrange(1000)}
+            "form": rng.choice(["list", "list", "tuple", "gen", "iter", "slow", "deque", "intseq", "range_like", "array_like"]), "salt": rng.randrange(1000),
+            "list_items": index % 3 == 1}
     nchunks = max(1, -(-n // chunk))
     dm = rng.choice([None, "slow_chunk", "slow_chunk", "alternate", "hash", "decreasing"])
     if dm:
